@@ -325,3 +325,22 @@ def c03(c):
     for k in ('compositions_checked', 'interruptions', 'cases_file_transport', 'cases_text_transport', 'runs_stopped_early_by_target',
               'cases_plain+dists', 'cases_vegas-default+dists', 'cases_vegas-user-grid', 'cases_mc-default', 'cases_mc-user-weights+dists'):
         c.require(k)
+
+
+@prop('C20',
+      rule="(a) mode quadruples: the same run (PLAIN / VEGAS with distributions, multi-channel default or user weights with 1..60 channels incl. all "
+           "equal, all-but-one-minimal, two groups, disabled channels; integrand ordinary / zero / constant / sometimes or always non-finite; 1..5 "
+           "iterations incl. 1..3-call iterations; optional positive target) executed in all four callback modes with stdout captured: the "
+           "checkpoint handed to every callback invocation and the returned checkpoint must be byte-identical across modes, verbose modes print "
+           "one block per iteration, writing modes leave the returned checkpoint in the file. (b) multi_channel_summary / weight_info / "
+           "max_difference / make_list_of_ranges on constructed reachable states (1..60 channels, calls 0..1e6, data incl. all-zero) under "
+           "ASan/UBSan with semantic checks (permutation, sortedness, valid channel indices, range expansion). (c) the three MPI integrators on "
+           "the shim with 1, 2, 5 ranks in all four modes, each rank with its own file name: output blocks == iterations (rank 0 only), only "
+           "rank 0 writes, all ranks and all modes return the same checkpoint. distinct = case configuration; all are non-trivial.",
+      assumptions=["stdout is captured by swapping std::cout's buffer; files are written to the check's private build directory",
+                   "MPI mode comparison uses the same shim seed so that the reduction order (and hence the rounding of the sums) is identical across modes"])
+def c20(c):
+    c.std([dict(src='c20_reporting.cpp', build='asan', shards={'quick': 5, 'thorough': 5}, extra_inc=SHIM, libs=['-pthread'])])
+    for k in ('mode_quadruples_plain+dists', 'mode_quadruples_vegas-default+dists', 'mode_quadruples_mc-default', 'mode_quadruples_mc-user-weights+dists',
+              'summaries_printed', 'range_lists_checked', 'mpi_mode_quadruples', 'integrand_zero', 'integrand_constant', 'integrand_non-finite-everywhere'):
+        c.require(k)
